@@ -10,6 +10,9 @@ CHECKS = {
     "C02": {"harnesses": [("harness.priority", "C02_OrderLaws"), ("harness.priority", "C02_HeapMaintenance"),
                           ("harness.matching", "C02_ClearingRound"), ("harness.matching", "C02_Continuous")]},
     "C04": {"harnesses": [("harness.ophistory", "C04_OpHistory"), ("harness.ophistory", "C04_NegativeOps")]},
+    "C05": {"harnesses": [("harness.runs", "C05_RunnerBasics")]},
+    "C10": {"harnesses": [("harness.runs", "C10_RunnerBasics")]},
+    "C11": {"harnesses": [("harness.runs", "C11_RunnerBasics")]},
     "C08": {"harnesses": [("harness.ophistory", "C08_OpHistory")]},
     "C03": {"harnesses": [("harness.matching", "C03_ClearingRound"), ("harness.matching", "C03_Continuous")]},
 }
